@@ -263,11 +263,19 @@ func genC12Case(t *simrt.Tape) *c12case {
 	fids := make([]uint64, nf)
 	fnames := make([]int, nf)
 	fsys := make([]int, nf) // how the system name relates to the name, see build
-	idBase := []uint64{1, 2, 5, 100}[t.Choose(K, 4)]
+	idBase := []uint64{1, 2, 5, 100, 0}[t.Choose(K, 5)]
 	nextFID := idBase
+	if idBase == 0 {
+		// ids at the very top of the range: the largest is 2^64-1 or just below
+		nextFID = ^uint64(0) - uint64(3*nf) - uint64(t.Choose(K, 2))
+	}
 	for i := range fids {
 		fids[i] = nextFID
-		nextFID += uint64(1 + t.Choose(K, 3)) // strictly increasing, sparse
+		step := uint64(1 + t.Choose(K, 3)) // strictly increasing, sparse
+		if idBase == 0 && i == nf-2 && t.Bool(K, 60) {
+			step = ^uint64(0) - nextFID // the last id is the largest there is
+		}
+		nextFID += step
 		fnames[i] = t.Choose(K, len(c12Names))
 		if t.Bool(K, 35) {
 			fsys[i] = 1 + t.Choose(K, 5)
